@@ -64,6 +64,7 @@ CALLER_DIRECTION = {
 }
 BACKENDS = ["wit_bindgen_rust", "wit_bindgen_c", "wit_bindgen_go", "wit_bindgen_moonbit"]
 ASYNC_VARIANTS = {"GuestImportAsync", "GuestExportAsync", "GuestExportAsyncStackful"}
+CMP = ["PartialEq>::eq", "PartialEq>::ne", "PartialEq::eq", "PartialEq::ne"]
 
 
 # ----------------------------------------------------------------------------------------------------------------
@@ -352,13 +353,13 @@ def r1_loop(rep):
            have == want_vars, f"variants {sorted(have)}", f.loc(swb))
 
     # the name test
-    eqs = [x for x in f.calls(["PartialEq>::eq", "PartialEq>::ne"]) if x.bb in loop_region]
+    eqs = [x for x in f.calls(CMP) if x.bb in loop_region]
     rep.floor("R17.1", "name comparison sites in the loop", len(eqs), 1)
     if len(eqs) != 1:
         raise AnchorMissing(f"is_async: expected one name comparison in the loop, found {len(eqs)}")
     E = eqs[0]
     is_ne = mir.norm(E.callee).endswith("::ne")
-    esw = [s for s in bool_switches_on_call(f, ["PartialEq>::eq", "PartialEq>::ne"]) if f.switch_origin(s[0]) is not None
+    esw = [s for s in bool_switches_on_call(f, CMP) if f.switch_origin(s[0]) is not None
            and _origin_call_bb(f.switch_origin(s[0])) == E.bb]
     if len(esw) != 1:
         raise AnchorMissing("is_async: switch on the name comparison")
